@@ -211,6 +211,8 @@ def run(ctx):
                 ctx.dist["client=reused-with-changed-options"] += 1
             else:
                 tr = wsdlkit.RecordingTransport(reply=None)
+                if rng.random() < 0.4:
+                    kw = dict(kw, headers={"X-K": "v"})     # a caller header: every request still names its own action
                 try:
                     c = wsdlkit.client(w, transport=tr, **kw)
                 except Exception as e:
@@ -222,6 +224,10 @@ def run(ctx):
             live_opts = [so, po]
             for steps in rng.sample(all_exprs, min(len(all_exprs), per_shape // 5)):
                 real = real_eval(c, tr, steps)
+                if c.options.headers not in ({}, {"X-K": "v"}):
+                    ctx.fail("invoking a method changed the caller's headers option", {"services": services, "steps": steps},
+                             repr(c.options.headers), "{} or {'X-K': 'v'}")
+                    c.set_options(headers={"X-K": "v"})
                 reqs.append({"op": "select.eval", "services": msvcs, "opts": {"service": so, "port": po},
                              "steps": steps})
                 reals.append(real)
